@@ -254,10 +254,11 @@ def _process_block_line(
 
 
 def _handle_block_end(line_num: int, violation: "Violation", state: _BlockState) -> bool | None:
-    """Handle block end marker."""
-    if state.in_block and line_num > violation.line:
-        if rules_match_violation(state.rules, violation.rule_id):
-            return True
+    """Handle block end marker.
+
+    A block that is still open here started after the violation line (an enclosing
+    block returns at the violation line itself), so it never covers the violation.
+    """
     state.in_block = False
     state.rules = set()
     return None
